@@ -22,7 +22,7 @@ import (
 	"github.com/flamego/flamego/verifharness/internal/rt"
 )
 
-const rule = "case = a handler stack: 0..3 application middleware, 0..3 nested groups (some declared with the empty path) with 0..2 handlers each, 1..3 route handlers and an optional final action; each handler is a straight-line program of 0..4 operations over {write a status, write body bytes (Write or io.Copy; the underlying writer with or without io.ReaderFrom), Next(), Next() under a recover, cancel the request context (directly, through a derived context installed on the request, or by a deadline that has passed), install a live derived or a fresh context on the request, panic} plus an optional return value (non-empty string, empty string, nil error, non-nil error). " +
+const rule = "case = a handler stack: 0..3 application middleware, 0..3 nested groups (some declared with the empty path) with 0..2 handlers each, 1..3 route handlers and an optional final action; each handler is a straight-line program of 0..4 operations over {write a status, write body bytes (Write or io.Copy; the underlying writer with or without io.ReaderFrom), Next(), Next() under a recover, cancel the request context (directly, through a derived context installed on the request, or by a deadline that has passed), install a live derived context on the request, re-register http.ResponseWriter with a wrapping flamego writer, panic (rarely)} plus an optional return value (non-empty string, empty string, nil error, non-nil error); status codes include the informational 103; the request may arrive with a context that is cancelled already; the route is declared with Any or with Get under AutoHead; the request is served twice on the same instance, and optionally a third time after Handlers() was called with no arguments (compared with an instance that never had middleware). " +
 	"Oracle: the trace of enter/next/back/exit events, final status and body must equal those of a cursor interpreter written from the statement (cursor = next handler not yet started); plus model-free invariants on the real trace: handlers are entered as 0,1,2,... without gap or repetition, and enter/exit events nest like calls. " +
 	"non-trivial = a program with a Next() issued after a write or cancel, or >=2 Next() in one handler, or a write inside a handler reached through Next(), or a chain that reaches a nil action, or a panic crossing a recovering Next(); distinct by case text"
 
